@@ -48,6 +48,7 @@ func init() {
 		"vfStrIn":      vfStrIn,
 		"vfContains":   vfContains,
 		"vfDistinct":   vfDistinct,
+		"vfIndex":      vfIndex,
 		"vfLog":        vfLog,
 		"vfEngine":     func(fr *frame, args []value) value { return true },
 		"vfYield":      vfYield,
@@ -295,6 +296,19 @@ func vfDistinct(fr *frame, args []value) value {
 		pc.assertTerm("(distinct " + strings.Join(terms, " ") + ")")
 	}
 	return nil
+}
+
+// vfIndex(tag, n): a symbolic index assumed in [0,n), case-split by the solver into a concrete int.
+func vfIndex(fr *frame, args []value) value {
+	pc := fr.i.pc
+	n := asInt64(args[1])
+	if n <= 0 {
+		panic(pathAbort{"assume", "vfIndex: empty range"})
+	}
+	s := pc.fresh(argString(args[0], "tag"), "int")
+	pc.assertTerm("(bvsle " + bvConst(0, 64) + " " + s.e + ")")
+	pc.assertTerm("(bvslt " + s.e + " " + bvConst(uint64(n), 64) + ")")
+	return int(pc.concretize(fr, s, 0, int(n)-1, "vfIndex"))
 }
 
 // vfContains(s, sub): strings.Contains as one term (no fork).
